@@ -504,6 +504,29 @@ func (r *Raft) runLeader() {
 		}
 	}
 
+	// A heartbeat is handled on the transport's own goroutine (fast path),
+	// not by this thread. While the push above waited for its consumer the
+	// leader of a newer term may have made us its follower: replicating and
+	// appending a no-op now would be acting as leader of a term somebody else
+	// won. Report the loss of leadership and let the main loop carry on in
+	// the state we are really in.
+	if r.getState() != Leader {
+		r.logger.Info("no longer the leader, not setting up leader state", "state", r.getState())
+		overrideNotifyBool(r.leaderCh, false)
+		if notify != nil {
+			select {
+			case notify <- false:
+			case <-r.shutdownCh:
+				// On shutdown, make a best effort but do not block
+				select {
+				case notify <- false:
+				default:
+				}
+			}
+		}
+		return
+	}
+
 	// setup leader state. This is only supposed to be accessed within the
 	// leaderloop.
 	r.setupLeaderState()
